@@ -326,14 +326,21 @@ func History(args []string) {
 func SynthShape(shape string) []WStream {
 	switch shape {
 	case "nomini": // no stream below the cutoff: the file has no mini stream and no mini FAT
-		return []WStream{{"Big1", content(4096, 1)}, {"big2", content(9000, 2)}}
+		return []WStream{{Name: "Big1", Data: content(4096, 1)}, {Name: "big2", Data: content(9000, 2)}}
 	case "fulldir": // root + 3 streams = one full 512-byte directory sector
-		return []WStream{{"Alpha", content(63, 1)}, {"beta2", content(5000, 2)}, {"Gamma", content(4095, 3)}}
+		return []WStream{{Name: "Alpha", Data: content(63, 1)}, {Name: "beta2", Data: content(5000, 2)}, {Name: "Gamma", Data: content(4095, 3)}}
 	case "gaps": // free sectors between regular streams
-		return []WStream{{"s1", content(4096, 1)}, {"S2", content(4097, 2)}, {"s3x", content(100, 3)}, {"T4", content(13000, 4)}, {"u5", content(8192, 5)}}
+		return []WStream{{Name: "s1", Data: content(4096, 1)}, {Name: "S2", Data: content(4097, 2)}, {Name: "s3x", Data: content(100, 3)}, {Name: "T4", Data: content(13000, 4)}, {Name: "u5", Data: content(8192, 5)}}
+	case "nested": // storages below the root: with a class id, nested, and empty ones (with and without a class id)
+		return []WStream{{Name: "Alpha", Data: content(63, 1)}, {Name: "beta2", Data: content(5000, 2)},
+			{Name: "Sub", Storage: true, Clsid: content(16, 0x51)}, {Name: "Sub/inner1", Data: content(200, 3)}, {Name: "Sub/Inner2", Data: content(4100, 4)},
+			{Name: "Sub/Deep", Storage: true, Clsid: content(16, 0x52)}, {Name: "Sub/Deep/leaf", Data: content(70, 5)},
+			{Name: "Sub/Void", Storage: true},
+			{Name: "EmptyTop", Storage: true, Clsid: content(16, 0x53)},
+			{Name: "Zeta6", Data: content(64, 6)}, {Name: "Sub/a", Data: content(1, 7)}, {Name: "Sub/zz", Data: content(4096, 8)}}
 	case "mixed":
-		return []WStream{{"Alpha", content(63, 1)}, {"beta2", content(5000, 2)}, {"Gamma", content(4095, 3)}, {"delta", content(0x2000, 4)},
-			{"\x05SummaryInformation", content(300, 5)}, {"Zeta6", content(64, 6)}, {"eta", content(65, 7)}}
+		return []WStream{{Name: "Alpha", Data: content(63, 1)}, {Name: "beta2", Data: content(5000, 2)}, {Name: "Gamma", Data: content(4095, 3)}, {Name: "delta", Data: content(0x2000, 4)},
+			{Name: "\x05SummaryInformation", Data: content(300, 5)}, {Name: "Zeta6", Data: content(64, 6)}, {Name: "eta", Data: content(65, 7)}}
 	}
 	panic("unknown shape " + shape)
 }
